@@ -84,7 +84,7 @@ func checkC06(r *Run) {
 		if f := r.fn(vT + w.m); f != nil {
 			for _, ret := range Returns(f) {
 				t := P.TermAt(ret.Results[0], ret).String()
-				r.Check(t == "(types.StakeStatus).Equal("+vT+"GetStatus(param:v), "+w.val+")", "C06-R1", "Validator."+w.m, P.InstrPos(ret), t, w.m+" is "+t)
+				r.Check(t == "(types.StakeStatus).Equal(param:v.Status, "+w.val+")", "C06-R1", "Validator."+w.m, P.InstrPos(ret), t, w.m+" is "+t)
 			}
 		}
 	}
@@ -201,7 +201,7 @@ func checkC06(r *Run) {
 		if c := r.oneCall("C06-R7", "slash", f, posK+"ForceValidatorUnstake"); c != nil {
 			v := argTerm(P.callTerm(c), 2).String()
 			r.Check(strings.HasPrefix(v, posK+"removeValidatorTokens("), "C06-R7", "slash/force-unstakes-updated-validator", P.InstrPos(c), "acts on the validator returned by removeValidatorTokens", "ForceValidatorUnstake receives "+v)
-			re := `^\(types\.Int\)\.LT\(` + q(vT+"GetTokens("+v+")") + `, types\.NewInt\(` + q(posK+"MinimumStake(param:k, param:ctx)") + `\)\)$`
+			re := `^\(types\.Int\)\.LT\(` + q(v+".StakedTokens") + `, types\.NewInt\(` + q(posK+"MinimumStake(param:k, param:ctx)") + `\)\)$`
 			r.requireAtoms("C06-R7", "slash/force-unstake", c, P.Guards(c, 0), []req{{"tokens<minimum", re}})
 			r.mustFollowEdge("C06-R7", "slash/below-minimum=>forced", f, re, func(in ssa.Instruction) bool { return in == ssa.Instruction(c) }, nil, "ForceValidatorUnstake")
 		}
